@@ -10,32 +10,56 @@ Model M (all fields optional unless noted):
 from xml.sax.saxutils import escape
 
 
+_CDATA = False
+
+
+def _txt(text):
+    """element text: escaped, or - the other spelling XML offers for the same characters - a CDATA section"""
+    if _CDATA and text and "]]>" not in text:
+        return "<![CDATA[" + text + "]]>"
+    return escape(text)
+
+
 def _label(kind, text, indent="      "):
     if text is None:
         return ""
-    return '%s<label kind="%s">%s</label>\n' % (indent, kind, escape(text))
+    return '%s<label kind="%s">%s</label>\n' % (indent, kind, _txt(text))
 
 
-def render_xml(m, header=True):
+def render_xml(m, header=True, cdata=False, rate_first=False):
+    """cdata: write every text block as a CDATA section; rate_first: write a location's exponentialrate label before its invariant label"""
+    global _CDATA
+    _CDATA = cdata
+    try:
+        return _render_xml(m, header, rate_first)
+    finally:
+        _CDATA = False
+
+
+def _render_xml(m, header, rate_first):
     out = []
     if header:
         out.append('<?xml version="1.0" encoding="utf-8"?>\n')
         out.append("<!DOCTYPE nta PUBLIC '-//Uppaal Team//DTD Flat System 1.1//EN' 'http://www.it.uu.se/research/group/darts/uppaal/flat-1_2.dtd'>\n")
     out.append("<nta>\n")
-    out.append("  <declaration>%s</declaration>\n" % escape(m.get("decl", "")))
+    out.append("  <declaration>%s</declaration>\n" % _txt(m.get("decl", "")))
     for t in m.get("templates", []):
         out.append("  <template>\n")
         out.append("    <name>%s</name>\n" % escape(t["name"]))
         if t.get("params") is not None:
-            out.append("    <parameter>%s</parameter>\n" % escape(t["params"]))
+            out.append("    <parameter>%s</parameter>\n" % _txt(t["params"]))
         if t.get("decl") is not None:
-            out.append("    <declaration>%s</declaration>\n" % escape(t["decl"]))
+            out.append("    <declaration>%s</declaration>\n" % _txt(t["decl"]))
         for l in t.get("locations", []):
             out.append('    <location id="%s">\n' % l["id"])
             if l.get("name") is not None:
                 out.append("      <name>%s</name>\n" % escape(l["name"]))
-            out.append(_label("invariant", l.get("inv")))
-            out.append(_label("exponentialrate", l.get("rate")))
+            if rate_first:
+                out.append(_label("exponentialrate", l.get("rate")))
+                out.append(_label("invariant", l.get("inv")))
+            else:
+                out.append(_label("invariant", l.get("inv")))
+                out.append(_label("exponentialrate", l.get("rate")))
             if l.get("urgent"):
                 out.append("      <urgent/>\n")
             if l.get("committed"):
@@ -56,7 +80,7 @@ def render_xml(m, header=True):
                 out.append(_label(kind, e.get(key)))
             out.append("    </transition>\n")
         out.append("  </template>\n")
-    out.append("  <system>%s</system>\n" % escape(m.get("system", "")))
+    out.append("  <system>%s</system>\n" % _txt(m.get("system", "")))
     if m.get("queries"):
         out.append("  <queries>\n")
         for q in m["queries"]:
